@@ -5,11 +5,26 @@ V = os.path.dirname(os.path.dirname(os.path.abspath(__file__)))
 props = [json.loads(l) for l in open(os.path.join(V, 'properties.jsonl'))]
 
 # id -> (design_ref, level text, level note, technique)
+TB = 'Trusted: the reference model in sim/dmgref (written from Pan Docs / the statements, never imports the emulator), hooks H1-H3, the scenario executor. Sampling, not proof. '
 CLAIMED = {
- 'C12': ('6/C12, A.3',
-   'Seeded search over interleavings of machine cycles with DIV/TIMA/TMA/TAC writes (random schedules, writes placed by the reference model around every overflow, enumerated short sequences from edge/wrap phases), real frame loop, per-cycle refinement check of DIV/TIMA/TMA/TAC/IF against an independent reference timer. Sampling, not proof.',
-   'Trusted: the reference timer in sim/dmgref/timer.go (from the statement and Pan Docs), the W1 equivalence "write at boundary b = guest write in cycle b+1", hooks H2/H3. The TLA+ part of the quantifier is not done (other technique family).',
-   'deterministic simulation: seeded cycle-exact bus-write schedules vs reference timer (refinement per machine cycle)'),
+ 'C01': ('6/C01, A.2', 'Seeded search over generated programs (all lock-step opcodes, CB opcodes, histories, interrupt lines rising mid-instruction with dispatch masked) executed by the real CPU inside the real frame loop in lock step with a reference SM83; registers, F low nibble, written memory and IF/IE compared at every instruction boundary, whole plain memory every 48 instructions; finite operand sweeps (8-bit ALU x carry, CB ops, DAA, 16-bit INC/DEC, SP+e, ADD HL) run as directed workloads through the same oracle.',
+         TB+'The value space is generated input; the simulator contributes history and interference. HALT/STOP excluded (C05).', 'deterministic simulation: lock-step refinement against reference SM83 over seeded programs + directed sweeps'),
+ 'C02': ('6/C02', 'Same lock-step executions judged for length: per-cycle callbacks of the real frame loop between instruction boundaries vs documented length (taken/not-taken from the flags at that moment); directed programs run every opcode under all 16 flag nibbles.',
+         TB+'The repository cycle table is not consulted.', 'deterministic simulation: simulated-clock cycle counts per instruction vs reference SM83'),
+ 'C03': ('6/C03', 'A simulated peer rewrites every location the tested instruction addresses with a cycle-specific stamp at every cycle boundary (real machine and reference shadow alike); the consumed value identifies the read cycle, the first cycle after which the location no longer holds the stamp identifies the write cycle. Every memory-accessing opcode, after random histories.',
+         TB+'Only timing is judged here (wrong values with right timing are C01).', 'deterministic simulation: per-cycle memory stamping by a scheduled peer + reference access cycles'),
+ 'C04': ('6/C04', 'Interrupt lines raised by the seeded scheduler at arbitrary machine-cycle offsets of short EI/DI/RETI/IF-IE-write sequences; all 2048 IE x IF x IME combinations at a boundary; lock-step reference interrupt controller decides dispatch/no dispatch, vector, IF bit, IME, pushed address, 5-cycle length, EI delay.',
+         TB+'Vector choice when the pending set changes during the dispatch is accepted either way (documented-compatible).', 'deterministic simulation: interrupt-line fault injection at cycle offsets vs lock-step reference'),
+ 'C05': ('6/C05', 'HALT under every IME x pending combination followed by every opcode; enabled and not-enabled lines raised k cycles after the HALT (k=0..64 dense, log-spaced to 1e5), key events while idle; lock-step reference decides idle/wake/dispatch(6 cycles)/halt-bug double execution.',
+         TB+'Wake-up latency with IME=0 pinned to one cycle (DMG behaviour, mooneye halt_ime0_nointr_timing).', 'deterministic simulation: wake-up event injection after every idle length vs lock-step reference'),
+ 'C12': ('6/C12, A.3', 'Seeded search over interleavings of machine cycles with DIV/TIMA/TMA/TAC writes (random schedules, writes placed by the reference model around every overflow, enumerated short sequences from edge/wrap phases), real frame loop, per-cycle refinement check of DIV/TIMA/TMA/TAC/IF against an independent reference timer.',
+         TB+'W1 equivalence: a write at boundary b is the guest write in cycle b+1. The TLA+ part of the quantifier is not done (other technique family).', 'deterministic simulation: seeded cycle-exact bus-write schedules vs reference timer (refinement per machine cycle)'),
+ 'C24': ('6/C24', 'The same scenario (ROM / generated program / random scene / random code, config, key schedule, frames) is run twice in one process with a disturber instance in between and once in a fresh process under another GOMAXPROCS; checkpoint digests every 4096 cycles (pixels, samples, serial, registers, IF/IE, DIV/TIMA, LY/STAT, NR52) and final state digests (frame, cart RAM, WRAM, HRAM, OAM, all I/O registers) must be equal.',
+         'Trusted: digest completeness (what is not digested is not compared). A violation is itself a run-to-run difference, so a replay may not reproduce it; the check then still reports it (6 replay attempts).', 'deterministic simulation: replay equality across runs and processes'),
+ 'C25': ('6/C25', 'Two or three instances with different workloads are advanced in an explicit seeded interleaving (slices of 1-3 cycles, hundreds of cycles, whole frames; instances created while others are mid-run) by a scheduler that owns the only token (each instance runs its real frame loop in a parked goroutine); each instance trace must equal its solo trace.',
+         'Trusted: digest completeness. Truly concurrent runs under the race detector are not part of the deciding step.', 'deterministic simulation: seeded interleaving of instances vs solo runs'),
+ 'C26': ('6/C26', 'Per-cycle progress of every party (timer counter, PPU position, DMA progress, RTC sub-second, audio samples per frame) measured through the yield point of the real frame loop while generated guest programs (with HALT, STOP, DIV/LCDC/DMA writes whose cycle is known from the lock-step reference) run; real Run() under the simulated context with cancel-before-start, cancel at the k-th Done evaluation, cancel mid-frame, window close; outputs released.',
+         TB+'Party progress is read through the verif accessors.', 'deterministic simulation: per-cycle party progress + cancellation/close fault injection into the real Run loop'),
 }
 NOT_YET = 'check not built yet in this session; planned in DESIGN.md section 6 (will be claimed when its simulator scenario class and oracle exist)'
 NOT_APPLICABLE = {}
